@@ -175,6 +175,14 @@ func (ex *Exec) unsupported(msg string) {
 	panic(pathEnd{OutUnsupported, msg})
 }
 func (ex *Exec) goPanic(msg string) {
+	if os.Getenv("GOSYM_PANICSTACK") != "" && ex.curFrame != nil {
+		msg += " [in"
+		n := 0
+		for f := ex.curFrame; f != nil && n < 8; f, n = f.caller, n+1 {
+			msg += " " + f.fn.String() + " <-"
+		}
+		msg += "]"
+	}
 	panic(&goPanicT{val: Iface{t: types.Typ[types.String], v: Str{s: msg}}, msg: msg})
 }
 
@@ -312,6 +320,9 @@ func (ex *Exec) branch(c *Term) bool {
 	case tf && ff:
 		if ex.curFrame != nil {
 			ex.stubHits["fork@"+ex.curFrame.fn.String()]++
+			if d := os.Getenv("GOSYM_FORKDBG"); d != "" && strings.Contains(ex.curFrame.fn.String(), d) {
+				fmt.Fprintf(os.Stderr, "FORK in %s block %d: %s\n", ex.curFrame.fn.Name(), ex.curFrame.block.Index, dumpTerm(c, 4))
+			}
 		}
 		ex.pending = append(ex.pending, workItem{prefix: clonePrefix(ex.decisions, 0)})
 		ex.decisions = append(ex.decisions, 1)
@@ -1170,7 +1181,7 @@ func (ex *Exec) sliceBytes(arr *ByteArr, off, ln, cp, lo, hi, max *Term) Value {
 	}
 	c := tc.And(tc.Cmp(OULE, max, cp), tc.And(tc.Cmp(OULE, hi, max), tc.Cmp(OULE, lo, hi)))
 	if !ex.branch(c) {
-		ex.goPanic("slice bounds out of range")
+		ex.goPanic(fmt.Sprintf("slice bounds out of range [%v:%v:%v] with capacity %v", lo, hi, max, cp))
 	}
 	if arr == nil {
 		z := tc.BV(64, 0)
@@ -2156,4 +2167,18 @@ func (ex *Exec) cfgHavocFloat() bool { return true }
 
 func debugf(format string, a ...interface{}) {
 	fmt.Fprintf(os.Stderr, format, a...)
+}
+
+func dumpTerm(t *Term, depth int) string {
+	if isLeaf(t) || depth == 0 {
+		return t.String()
+	}
+	s := "(" + opNames[t.op]
+	if t.op == OExtract {
+		s = fmt.Sprintf("(extract[%d:%d]", t.p, t.q)
+	}
+	for _, a := range t.args {
+		s += " " + dumpTerm(a, depth-1)
+	}
+	return s + ")"
 }
